@@ -310,8 +310,8 @@ Definition kstep (c : kcfg) : kcfg :=
                    end
               else KCfg st b1 m k l
           | MAuto _ =>
-              (* count[0] -= 1; is_connected[0] = False *)
-              KCfg st (set_ac false (set_count (count b - 1) b)) m k l
+              (* is_connected[0] = False   (count[0] counts arrivals: it is never decremented) *)
+              KCfg st (set_ac false b) m k l
           | MPlain => KCfg st b m k l
           end
       | KConnect w =>
